@@ -63,8 +63,20 @@ fn cfg() -> ValCfg {
 
 pub fn dedup_case_strategy() -> BoxedStrategy<DedupCase> {
     // (i) flat write sequences over the alphabet
-    let flat = proptest::collection::vec((prop::bool::weighted(0.75), 0usize..SMALL_ALPHABET.len()), 0..40)
-        .prop_map(|ops| ops.into_iter().map(|(d, i)| (if d { Ty::Dedup } else { Ty::Str }, Val::str(SMALL_ALPHABET[i]))).collect::<Vec<_>>())
+    // (plus time zones, which carry their name as a plain string, and deduplicated strings that spell a zone name)
+    const ZONES: [&str; 3] = ["UTC", "Europe/Budapest", "Asia/Tokyo"];
+    let flat = proptest::collection::vec((0u8..20, 0usize..SMALL_ALPHABET.len()), 0..40)
+        .prop_map(|ops| {
+            ops.into_iter()
+                .map(|(k, i)| match k {
+                    0..=12 => (Ty::Dedup, Val::str(SMALL_ALPHABET[i])),
+                    13..=15 => (Ty::Str, Val::str(SMALL_ALPHABET[i])),
+                    16 | 17 => (Ty::Tz, Val::Tz(ZONES[i % 3].to_string())),
+                    18 => (Ty::Dedup, Val::str(ZONES[i % 3])),
+                    _ => (Ty::Str, Val::str(ZONES[i % 3])),
+                })
+                .collect::<Vec<_>>()
+        })
         .prop_map(|items| ("flat stream".to_string(), items));
     // (ii)-(iv) typed placements, 1-3 values back to back
     let ts = templates();
@@ -248,7 +260,7 @@ pub fn run_c09(cx: &Cx) -> PropResult {
     PropResult::new(
         acc,
         "exploration",
-        "cases = write sequences over a six-string alphabet (empty, ASCII, non-ASCII, long, one equal to a removed field's name): (i) flat streams of 0-40 (dedup | plain) writes into one SerializationContext; (ii) tuples, Vec<DS>, Option/Result/LinkedList of DS; (iii) DS fields of version-0 records; (iv) DS fields of evolved records whose header carries 1-2 removed/transient names, nested in each other and repeated in a Vec so that the second instance's header names are back-references; plus run-time generated declarations with DS fields, and every declaration of the compiled batch (real derive-macro code) that contains a DS anywhere inside; 1-3 values back to back. Oracles: decode == strings written; stream byte-identical to the model (ids from 1 in first-occurrence order, header names before field strings, every repeat exactly zigzag_varint(-id), first occurrences as plain strings); flat streams without repeats identical to the all-plain stream; a rewritten back-reference to an id never introduced (introduced+1, i32::MIN, introduced+1000) decodes to Err(InvalidStringId); so does a forward reference (the first header name of a top-level evolved record rewritten as a back-reference to the id it would get). Same definition on both sides. Non-trivial = at least one repeat and a first occurrence after a repeat.",
+        "cases = write sequences over a six-string alphabet (empty, ASCII, non-ASCII, long, one equal to a removed field's name): (i) flat streams of 0-40 (dedup | plain | time-zone) writes into one SerializationContext (zone names also occur as deduplicated and as plain strings); (ii) tuples, Vec<DS>, Option/Result/LinkedList of DS; (iii) DS fields of version-0 records; (iv) DS fields of evolved records whose header carries 1-2 removed/transient names, nested in each other and repeated in a Vec so that the second instance's header names are back-references; plus run-time generated declarations with DS fields, and every declaration of the compiled batch (real derive-macro code) that contains a DS anywhere inside; 1-3 values back to back. Oracles: decode == strings written; stream byte-identical to the model (ids from 1 in first-occurrence order, header names before field strings, every repeat exactly zigzag_varint(-id), first occurrences as plain strings); flat streams without repeats identical to the all-plain stream; a rewritten back-reference to an id never introduced (introduced+1, i32::MIN, introduced+1000) decodes to Err(InvalidStringId); so does a forward reference (the first header name of a top-level evolved record rewritten as a back-reference to the id it would get). Same definition on both sides. Non-trivial = at least one repeat and a first occurrence after a repeat.",
     )
 }
 
